@@ -1,5 +1,5 @@
 #![allow(unused)]
-use vstd::prelude::*;
+use ::vstd::prelude::*;
 //@quote-macros
 //@include prelude/tokens.rs
 //@include prelude/deps.rs
@@ -107,6 +107,32 @@ spec fn default_arm<'a>(input: &Enum<'a>, ctx: ImplContext<'a>) -> Seq<Toks> {
     |v: &Variant| -> (r: bool) ensures r == q_has_lit_or_pat(ctx.struct_attr.ty)(v)
 //@closure 1
     |v: &Variant| -> (r: bool) ensures r == q_is_ghost(ctx.struct_attr.ty, ctx.kind)(v)
+//@end
+
+
+// ---------------------------------------------------------------- enum_init_block: variants in declaration order, then the
+// counterpart-only variants of the #[ghosts] that applies to this counterpart and kind (C02 C06)
+spec fn mk_variant<'a>() -> spec_fn(&'a Variant) -> VariantData<'a> { |v: &'a Variant| VariantData::Variant(v) }
+spec fn mk_ghost<'a>() -> spec_fn(&'a GhostData) -> VariantData<'a> { |d: &'a GhostData| VariantData::GhostData(d) }
+
+spec fn enum_fields<'a>(input: &'a Enum<'a>, ctx: ImplContext<'a>) -> Seq<VariantData<'a>> {
+    refs(input.variants@).map_values(mk_variant())
+    + (match spec_ghosts_attr(&input.attrs, ctx.struct_attr.ty, ctx.kind) {
+        Some(g) => refs(g.ghost_data.pseq()).map_values(mk_ghost()),
+        None => Seq::<VariantData>::empty(),
+    })
+}
+
+//@fn expand.rs enum_init_block
+//@props C02,C06,C09,C16
+//@uses flat_lemmas::group_seq
+//@eta VariantData::Variant :: &Variant -> VariantData
+//@eta VariantData::GhostData :: &GhostData -> VariantData
+//@spec
+    requires
+        enum_items_pre(refs(enum_fields(input, *ctx)), *ctx), // #every-rendered-variant-has-a-defined-arm [C16]
+    ensures
+        r@ =~= brace(flat(enum_arms(refs(enum_fields(input, *ctx)), *ctx)) + flat(default_arm(input, *ctx))), // #own-variants-then-applicable-ghosts
 //@end
 
 } // verus!
